@@ -70,7 +70,14 @@ def main():
             rec["contracts"] = cc
             rec["contracts_attached"] = dict(contracts.ATTACHED)
             for f_ in cf:
-                rec.setdefault("violations", []).append({"kind": "contract", "subkind": f_["contract"], "detail": f_, "finding": None})
+                v = {"kind": "contract", "subkind": f_["contract"], "detail": f_, "finding": None}
+                try:
+                    from ..props import findings
+
+                    findings.classify(spec.get("prop"), v, text=rec.get("model_text") or "")
+                except Exception:
+                    pass
+                rec.setdefault("violations", []).append(v)
                 rec["status"] = "violated"
         vs = rec.get("violations") or []
         if len(vs) > 12:
